@@ -11,3 +11,4 @@ CONSTANTS
   Eviction = 100
   MaxNow = 0
   Now0 = 0
+  KeepRunning = FALSE
